@@ -1696,8 +1696,15 @@ impl JoinReorder {
                 let columns: HashSet<String> =
                     schema.fields().iter().map(|f| f.name.clone()).collect();
 
+                // A Project over a single base relation (ProjectionPushdown wraps a
+                // filtered scan this way) must keep the relation's qualifier: join
+                // predicates reference `t.col`, and under the name "project" they
+                // resolve to no relation, the edge is lost, the graph looks
+                // disconnected and the greedy fallback emits a cross join.
                 let name = match plan {
-                    LogicalPlan::Project(_n) => "project".to_string(),
+                    LogicalPlan::Project(_n) => self
+                        .relation_qualifier(plan)
+                        .unwrap_or_else(|| "project".to_string()),
                     LogicalPlan::Aggregate(_n) => "aggregate".to_string(),
                     _ => "relation".to_string(),
                 };
@@ -1839,6 +1846,19 @@ impl JoinReorder {
             }
         }
         relations.into_iter().collect()
+    }
+
+    /// The qualifier under which a single-relation plan's columns are referenced
+    /// (`alias.col` or `table.col`): the alias if there is one, else the table name.
+    /// None for anything that is not a Filter/Project chain over one base relation.
+    fn relation_qualifier(&self, plan: &LogicalPlan) -> Option<String> {
+        match plan {
+            LogicalPlan::Scan(node) => Some(node.table_name.clone()),
+            LogicalPlan::SubqueryAlias(node) => Some(node.alias.clone()),
+            LogicalPlan::Filter(node) => self.relation_qualifier(&node.input),
+            LogicalPlan::Project(node) => self.relation_qualifier(&node.input),
+            _ => None,
+        }
     }
 
     /// Get the underlying table name from a relation plan (handles SubqueryAlias)
